@@ -7,7 +7,7 @@ structure NUFState where
   inFragmentDefinition : Bool
   used : List Name
 
-def noUnusedFragmentsStep (_ : Schema) (_ : QueryDoc) (st : NUFState) (e : Event) : StepOut NUFState :=
+def noUnusedFragmentsStep (_ : SV) (_ : QueryDoc) (st : NUFState) (e : Event) : StepOut NUFState :=
   match e.p with
   | .fragmentSpread f _ _ =>
     if !st.inFragmentDefinition then .ok { st with used := f.name :: st.used } [] else .ok st []
